@@ -55,6 +55,8 @@ def jsonable(obj, depth=0):
 
 # ------------------------------------------------------------------------ digests
 def arr_hash(a):
+    if a is None:
+        return None
     a = np.asarray(a)
     h = hashlib.blake2b(digest_size=12)
     h.update(str(a.dtype).encode())
@@ -66,46 +68,64 @@ def arr_hash(a):
     return h.hexdigest()
 
 
+_MISSING = object()
+
+
+def _raw(o, name, default=None):
+    """Slot value without going through ``__getattr__`` (half-built objects)."""
+    try:
+        return object.__getattribute__(o, name)
+    except AttributeError:
+        return default
+
+
 def region_digest(r):
+    if r is None:
+        return None
     return (
-        arr_hash(r._pmin),
-        arr_hash(r._pmax),
-        tuple(r._dims),
-        tuple(r._units),
-        float(r._tolerance_factor),
+        arr_hash(_raw(r, "_pmin")),
+        arr_hash(_raw(r, "_pmax")),
+        tuple(_raw(r, "_dims", ())),
+        tuple(_raw(r, "_units", ())),
+        float(_raw(r, "_tolerance_factor", 0.0)),
     )
 
 
 def mesh_digest(m):
-    subs = getattr(m, "_subregions", None) or {}
+    if m is None:
+        return None
+    subs = _raw(m, "_subregions") or {}
     return (
-        region_digest(m._region),
-        arr_hash(m._n),
-        str(getattr(m, "_bc", "")),
+        region_digest(_raw(m, "_region")),
+        arr_hash(_raw(m, "_n")),
+        str(_raw(m, "_bc", "")),
         tuple((k, region_digest(v)) for k, v in subs.items()),
     )
 
 
 def field_digest(f):
-    vm = getattr(f, "_vdim_mapping", None)
+    vm = _raw(f, "_vdim_mapping")
+    vd = _raw(f, "_vdims")
+    unit = _raw(f, "_unit")
     return (
-        mesh_digest(f._mesh),
-        int(f._nvdim),
-        arr_hash(f._array),
-        arr_hash(f._valid),
-        None if f._vdims is None else tuple(f._vdims),
+        mesh_digest(_raw(f, "_mesh")),
+        _raw(f, "_nvdim"),
+        arr_hash(_raw(f, "_array")),
+        arr_hash(_raw(f, "_valid")),
+        None if vd is None else tuple(vd),
         None if vm is None else tuple(vm.items()),
-        None if f._unit is None else str(f._unit),
+        None if unit is None else str(unit),
     )
 
 
 def digest(obj):
     """Digest of a Region / Mesh / Field (by attribute, not by class import)."""
-    if hasattr(obj, "_array") and hasattr(obj, "_mesh"):
+    slots = getattr(type(obj), "__slots__", ())
+    if "_array" in slots and "_mesh" in slots:
         return ("field",) + field_digest(obj)
-    if hasattr(obj, "_region") and hasattr(obj, "_n"):
+    if "_region" in slots and "_n" in slots:
         return ("mesh",) + mesh_digest(obj)
-    if hasattr(obj, "_pmin"):
+    if "_pmin" in slots:
         return ("region",) + region_digest(obj)
     if isinstance(obj, np.ndarray):
         return ("ndarray", arr_hash(obj))
